@@ -689,6 +689,7 @@ type Case17 struct {
 	Sweep bool         `json:"sweep,omitempty"` // drawn from the systematic small-pair list (c17sweep.go)
 	Aim   string       `json:"aim,omitempty"`   // infer: at run time one type parameter is renamed to the very name ("t<id>" / "s<id>") the checker is about to generate for one of its own fresh variables (a legal name: fresh means fresh for the terms at hand)
 	AimJ  int          `json:"aim_j,omitempty"`
+	Decoy int          `json:"decoy,omitempty"` // infer: a never-matching overload sharing f's type variables is registered before (1) / after (2) f
 	Cross bool         `json:"cross,omitempty"` // equals: crossing DAG family
 	BotG  bool         `json:"bot_g,omitempty"` // match: the variable-free side contains the bottom type somewhere (pattern on the left, no function types: see DESIGN.md, X01)
 	GC    string       `json:"gc"`             // none | dense | sparse
@@ -992,6 +993,15 @@ func genCase17(r *rng) *Case17 {
 				c.Aim = r.pick([]string{"t", "s"})
 				c.AimJ = r.intn(3)
 			}
+			if np >= 2 && r.chance(0.35) {
+				c.Decoy = 1 + r.intn(2)
+				if c.Decoy == 2 && r.chance(0.5) {
+					c.Decoy = 1 // before f is where it matters
+				}
+				if c.Aim == "" {
+					c.AimJ = r.intn(3)
+				}
+			}
 		} else if r.chance(0.35) {
 			// top (the universal type) absorbs on the LEFT only, at any depth (see nest below)
 			c.Mode = "top"
@@ -1269,7 +1279,36 @@ func runCase17(c *Case17) case17Result {
 						}
 					}
 				}
+				var decoy *T17
+				if c.Decoy != 0 && np >= 2 {
+					// a second overload of the same name and arity, written with the SAME type
+					// variables (people reuse one `a` for a family of signatures): its first
+					// parameter is a bare variable, so it binds before it fails on the last
+					// parameter, which no argument matches. What a rejected candidate bound
+					// must not constrain the next candidate.
+					pv := map[string]bool{}
+					(&T17{K: "tuple", A: f.A[:np]}).vars(pv)
+					var names []string
+					for v := range pv {
+						names = append(names, v)
+					}
+					sort.Strings(names)
+					if len(names) > 0 {
+						decoy = &T17{K: "fun", N: "f"}
+						decoy.A = append(decoy.A, &T17{K: "var", N: names[c.AimJ%len(names)]})
+						for _, a := range f.A[1 : np-1] {
+							decoy.A = append(decoy.A, a.clone())
+						}
+						decoy.A = append(decoy.A, &T17{K: "obj", F: []string{"decoy__"}, A: []*T17{{K: "num"}}}, &T17{K: "num"})
+					}
+				}
+				if decoy != nil && c.Decoy == 1 {
+					env.RegisterFun(mk(decoy))
+				}
 				env.RegisterFun(mk(f))
+				if decoy != nil && c.Decoy == 2 {
+					env.RegisterFun(mk(decoy))
+				}
 				var args []ast.Expr
 				for i, a := range c.Y.A {
 					name := fmt.Sprintf("x%d", i)
@@ -1544,6 +1583,9 @@ func (c17) Batch(seed uint64, wid, batch, count int, deadline time.Time, emit fu
 		cn["steps"] += int64(res.Steps)
 		if c.Cross {
 			cn["equals_crossing_dag_cases"]++
+		}
+		if c.Decoy != 0 {
+			cn["infer_decoy_overload_cases"]++
 		}
 		if c.Share {
 			cn["shared_subterm_cases"]++
